@@ -44,16 +44,20 @@ Proof.
   - exact (Hd c' (or_intror Hin) Hk).
 Qed.
 
-Lemma validate_of_ok g : forallb col_ok g = true -> validate g = true.
+Lemma validate_of_ok fx g : sortedb lt1 g = true -> forallb col_ok g = true -> validate fx g = true.
 Proof.
-  unfold validate. intros Hall. rewrite forallb_forall in *. intros c Hin. specialize (Hall c Hin).
-  unfold col_ok in Hall. split_andb Hall. rewrite Hi0, Hi. reflexivity.
+  unfold validate. intros Hs Hall. apply andb_true_iff. split.
+  - rewrite forallb_forall in *. intros c Hin. specialize (Hall c Hin).
+    unfold col_ok in Hall. split_andb Hall. rewrite Hi0, Hi. reflexivity.
+  - destruct fx; [|reflexivity]. rewrite (sortedb_keys_nodupb _ Hs). simpl.
+    rewrite forallb_forall in *. intros c Hin. specialize (Hall c Hin). unfold col_ok in Hall. split_andb Hall.
+    rewrite Hi1. simpl. apply sortedb_keys_nodupb. exact Hall.
 Qed.
 
-Lemma nft_roundtrip s : invb s = true -> import (export s) = Some s.
+Lemma nft_roundtrip fx s : invb s = true -> import fx (export s) = Some s.
 Proof.
   unfold invb. intros Hinv. apply andb_true_iff in Hinv. destruct Hinv as [Hs Hok].
-  unfold import, export. rewrite (validate_of_ok s Hok). simpl.
+  unfold import, export. rewrite (validate_of_ok fx s Hs Hok). simpl.
   rewrite imp_cols_ok.
   - f_equal. apply (oof_list_sorted lt1 lt1_irrefl lt1_asym). apply (sortedb_sorted lt1 lt1_trans). exact Hs.
   - intros c _ [].
@@ -61,36 +65,57 @@ Proof.
   - intros c Hin. rewrite forallb_forall in Hok. apply Hok. exact Hin.
 Qed.
 
-Lemma nft_export_validates_lemma s : invb s = true -> validate (export s) = true.
+Lemma nft_export_validates_lemma s : invb s = true -> validate true (export s) = true.
 Proof.
-  intros Hinv. pose proof (nft_roundtrip s Hinv) as Hr. unfold import in Hr.
-  destruct (validate (export s)); [reflexivity|discriminate].
+  intros Hinv. pose proof (nft_roundtrip true s Hinv) as Hr. unfold import in Hr.
+  destruct (validate true (export s)); [reflexivity|discriminate].
 Qed.
 
 Lemma nft_export_fixpoint_lemma s :
-  invb s = true -> exists s', import (export s) = Some s' /\ export s' = export s.
+  invb s = true -> exists s', import true (export s) = Some s' /\ export s' = export s.
 Proof. intros Hinv. exists s. split; [apply nft_roundtrip; exact Hinv|reflexivity]. Qed.
 
 Lemma nft_queries_preserved_lemma s :
-  invb s = true -> exists s', import (export s) = Some s' /\ queries s' = queries s.
+  invb s = true -> exists s', import true (export s) = Some s' /\ queries s' = queries s.
 Proof. intros Hinv. exists s. split; [apply nft_roundtrip; exact Hinv|reflexivity]. Qed.
 
-(** ValidateGenesis looks neither at the creator of a class nor for repeated ids; InitGenesis panics on both *)
-Lemma nft_import_total_refuted_lemma : exists g, validate g = true /\ import g = None.
+(** the code as it was: ValidateGenesis looked neither at the creator of a class nor for repeated ids;
+    InitGenesis panics on both *)
+Lemma nft_import_total_refuted_lemma : exists g, validate false g = true /\ import false g = None.
 Proof.
   exists [(1, ((0, true, 0, 0), [(1, (0, true, true, 0)); (1, (2, true, true, 0))]))].
   split; vm_compute; reflexivity.
 Qed.
 
-Lemma nft_import_total_partial_lemma g :
-  validate g = true -> NoDup (map fst g) ->
-  (forall c, In c g -> 0 <= d_creator (c_info c) /\ sortedb lt1 (c_nfts c) = true) ->
-  import g <> None.
+(** the repaired validation: every validated genesis imports *)
+Lemma imp_nfts_total l : forall ns,
+  (forall n, In n l -> ~ In (fst n) (map fst ns)) -> NoDup (map fst l) -> imp_nfts l ns <> None.
+Proof. intros ns Hd Hnd. rewrite imp_nfts_ok by assumption. discriminate. Qed.
+
+Lemma imp_cols_total g : forall cs,
+  (forall c, In c g -> ~ In (fst c) (map fst cs)) -> NoDup (map fst g) ->
+  (forall c, In c g -> 0 <= d_creator (c_info c) /\ NoDup (map fst (c_nfts c))) ->
+  imp_cols g cs <> None.
 Proof.
-  intros Hv Hnd Hc. unfold import. rewrite Hv. simpl. rewrite imp_cols_ok; [discriminate|intros c _ []|exact Hnd|].
-  intros c Hin. destruct (Hc c Hin) as [Hcr Hs]. unfold validate in Hv. rewrite forallb_forall in Hv.
-  specialize (Hv c Hin). apply andb_true_iff in Hv. destruct Hv as [Hv1 Hv2].
-  unfold col_ok. rewrite Hs, Hv1, Hv2. simpl. rewrite andb_true_r. lia.
+  induction g as [|c g IH]; intros cs Hd Hnd Hok; simpl; [discriminate|].
+  destruct (Hok c (or_introl eq_refl)) as [Hcr Hn].
+  assert (Hcr' : (d_creator (c_info c) <? 0) = false) by lia. rewrite Hcr'.
+  rewrite (has_false_notin (fst c) cs) by (apply Hd; left; reflexivity).
+  rewrite imp_nfts_ok; [|intros n _ []|exact Hn].
+  inversion Hnd as [|? ? H1 H2]; subst.
+  apply IH; [|exact H2|intros c' Hin; apply Hok; right; exact Hin].
+  intros c' Hin Hk. apply keys_oins_inv in Hk. destruct Hk as [Heq|Hk].
+  - apply H1. rewrite <- Heq. apply in_map. exact Hin.
+  - exact (Hd c' (or_intror Hin) Hk).
+Qed.
+
+Lemma nft_import_total_lemma g : validate true g = true -> import true g <> None.
+Proof.
+  intros Hv. unfold import. rewrite Hv. simpl. unfold validate in Hv.
+  apply andb_true_iff in Hv. destruct Hv as [_ Hv]. cbv iota in Hv. apply andb_true_iff in Hv. destruct Hv as [Hi0 Hi].
+  apply imp_cols_total; [intros c _ []|apply nodupb_NoDup; exact Hi0|].
+  intros c Hin. rewrite forallb_forall in Hi. specialize (Hi c Hin). apply andb_true_iff in Hi. destruct Hi as [A B].
+  split; [lia|apply nodupb_NoDup; exact B].
 Qed.
 
 Definition wit_s : state :=
